@@ -211,7 +211,6 @@ pub fn c20() -> Check {
         "safety form of the liveness property over generated states (deterministic half): configurations with small write-stall / mandatory-compaction thresholds (1..8 files, 4 KiB..64 MiB) and tight compaction limits (max files 2..64, max bytes 8 KiB..512 MiB); histories that flush/ingest often and compact rarely so level 0 reaches the stall threshold; whenever the store reports that ingest must stall, a bounded number of compaction steps (<= live files + 16) must lower level 0 below the threshold, and a compaction step that finds nothing to run while the stall holds and nothing is in progress is a violation. Non-trivial: level 0 reached the stall threshold at least once and was relieved; distinct by structural hash.",
     )
     .assume("'eventually' is replaced by bounded-step relief under single-threaded step driving (part stall-relief) and by exact dead-lock detection under real threads (part threaded-stall: 1-4 threads ingesting ssts into an LsmTree with 1-3 compaction threads and stall thresholds of 1-7 files; a stall is declared only when every live store thread is parked on a condition variable and the progress / notify / ingested counters did not move for 3 s; a 60 s watchdog only yields 'inconclusive'); part exact-wakeups isolates each wake-up: exactly one store thread is parked (an ingest on the write stall, or a compaction thread for lack of work) and the harness itself performs the event that must wake it (compaction steps that relieve level 0, or an ingest that reaches the mandatory threshold), so 'still parked afterwards' is an exact lost-wake-up verdict")
-    .assume("known finding R-P: states in which all of level 0 plus the overlapping level-1 files already exceed max_compaction_files are excluded and counted")
     .pbt(StoreProp {
         name: "stall-relief",
         probes: Probes { stall: true, reads: false, ..Default::default() },
